@@ -431,6 +431,43 @@ theorem truncate_hfull_refuted : ¬ truncate_hfull_statement := by
       [(7, false)]).1 2).1.B 3 = none := by decide
   rw [this] at h2; cases h2
 
+/-! ### the hypotheses of `truncate_inv` and `confirm_inv` are needed -/
+
+/-- `truncate_inv` without "target on the main chain" — FALSE, see `truncate_offchain_refuted` -/
+def truncate_any_statement : Prop := ∀ (l : L) (target : Nat), LedgerInv l → LedgerInv (truncate l target).1
+
+/-- witness: blocks 1 (tip) and 2 (side) below the root; truncating to the side block 2 makes it the tip without
+flagging it as trunk -/
+theorem truncate_offchain_refuted : ¬ truncate_any_statement := by
+  intro h
+  have I0 := genesis_inv 0 []
+  have I1 := confirm_inv _ 1 0 [] I0 (by decide) (by decide)
+  have I2 := confirm_inv _ 2 0 [] I1 (by decide) (by decide)
+  have I' := h _ 2 I2
+  have ht : (truncate (confirm (confirm (genesis 0 []) 1 0 []).1 2 0 []).1 2).1.tip = 2 := by decide
+  have hp : OnPath (truncate (confirm (confirm (genesis 0 []) 1 0 []).1 2 0 []).1 2).1 2 := by
+    unfold OnPath; rw [ht]; exact Anc.refl _
+  have := (I'.trunk 2 ⟨some 0, 1, false, none, []⟩ (by decide)).2 hp
+  cases this
+
+/-- `confirm_inv` without the hypothesis on left-over confirmed-table entries — FALSE, see
+`confirm_leftover_refuted` -/
+def confirm_no_leftover_hyp_statement : Prop :=
+  ∀ (l : L) (id pre : Nat) (txs : List (Nat × Bool)), LedgerInv l →
+    (∀ t, t ∈ txs.map (·.1) → t ∉ branchTxs l pre) → LedgerInv (confirm l id pre txs).1
+
+/-- witness: block 1 with transaction 7 is confirmed and truncated away (`C 7 = 1` stays); a different block with the
+same id 1 and no transactions is confirmed: the entry now names a stored block that does not contain 7. (Block ids are
+content hashes, so the real ledger never sees this; the model's ids are arbitrary numbers.) -/
+theorem confirm_leftover_refuted : ¬ confirm_no_leftover_hyp_statement := by
+  intro h
+  have I0 := genesis_inv 0 []
+  have I1 := confirm_inv _ 1 0 [(7, false)] I0 (by decide) (by decide)
+  have It := truncate_inv _ 0 I1 (by decide)
+  have I' := h _ 1 0 [] It (by decide)
+  have := I'.c_sound 7 1 ⟨some 0, 1, true, none, []⟩ (by decide) (by decide)
+  cases this
+
 -- non-vacuity of the remaining statements: their only hypothesis is `LedgerInv`, instantiated with the state after
 -- the trunk switch (main chain 3 → 2 → 0, side block 1); `confirm_inv_anc` instantiated at genesis
 example :
